@@ -23,11 +23,84 @@ type lockheldT struct {
 	Fam      string `json:"fam"`
 	Burst    int    `json:"nburst"`
 	Cfg      int    `json:"cfg"`
+	// CloseGated: no call A; instead Close is called while B's matcher is at the gate and a backlog of Burst datagrams
+	// for B stands behind it (in B's buffer, in the receive side's hands, in the connection).  Close may wait for the
+	// matcher; once the gate opens, B returns, Close returns, and no goroutine of the client is left.
+	CloseGated bool `json:"close_while_gated,omitempty"`
+}
+
+func judgeCloseGated(r *mon.Rec, t *testing.T, sc lockheldT) {
+	f := fam(sc.Fam)
+	var errB error
+	var retB, closed bool
+	pan, val, st := mon.Guard(func() {
+		synctest.Test(t, func(t *testing.T) {
+			conn := sconn.New(0)
+			c, e := f.NewCfg(conn, time.Hour, 1, sc.Cfg)
+			if e != nil {
+				t.Fatal(e)
+			}
+			xidB := uint32(0x00b00b02)
+			gate := make(chan struct{})
+			mB := func(rp cli.Resp) bool {
+				<-gate
+				return false
+			}
+			doneB, doneC := make(chan struct{}), make(chan struct{})
+			go func() {
+				defer close(doneB)
+				_, _, errB = c.SendAndRead(context.Background(), dest, f.Request(xidB, 0), mB)
+				retB = true
+			}()
+			synctest.Wait()
+			fed := make(chan struct{})
+			go func() {
+				defer close(fed)
+				for i := 1; i <= sc.Burst; i++ {
+					if !conn.Inject(sconn.Datagram{B: f.Datagram("matching", xidB, i, f.AcceptType()), From: dest, Nonce: i, Class: "matching"}) {
+						return
+					}
+				}
+			}()
+			synctest.Wait() // the matcher is at the gate; everything behind it is as far as it gets
+			go func() {
+				defer close(doneC)
+				c.Close()
+				closed = true
+			}()
+			synctest.Wait()
+			close(gate)
+			<-doneB
+			<-doneC
+			<-fed
+		})
+	})
+	bad := func(key, msg string, a ...any) {
+		r.Violate("C11:close-gated:"+key, fmt.Sprintf("%s Close while a matcher is busy and %d datagrams for its call stand behind it: ", sc.Fam, sc.Burst)+fmt.Sprintf(msg, a...), sc)
+	}
+	if pan {
+		bad("panic-or-deadlock:"+mon.LibFrame(st), "%.300v (call returned: %v, Close returned: %v)", val, retB, closed)
+		return
+	}
+	if !retB || !closed {
+		bad("not-returned", "call returned: %v, Close returned: %v", retB, closed)
+		return
+	}
+	if errB == nil {
+		bad("response-after-refusal", "the call whose matcher refuses everything returned a response and no error")
+		return
+	}
+	r.Shape(fmt.Sprintf("close-gated/%s/%d", sc.Fam, sc.Burst), true)
+	r.Count("closegated.scenarios", 1)
 }
 
 func judgeLockHeld(r *mon.Rec, t *testing.T, sc lockheldT) {
 	r.Current(sc)
 	r.Eval(1)
+	if sc.CloseGated {
+		judgeCloseGated(r, t, sc)
+		return
+	}
 	f := fam(sc.Fam)
 	var errA, reuseA, errB error
 	var gotB, retA, retB bool
@@ -111,7 +184,12 @@ func lockheldGrid() []lockheldT {
 	for _, fm := range []string{"nclient4", "nclient6"} {
 		for _, b := range []int{1, 3, 6, 7, 8, 12} {
 			for cfg := 0; cfg < cli.NCfg; cfg++ {
-				out = append(out, lockheldT{true, fm, b, cfg})
+				out = append(out, lockheldT{LockHeld: true, Fam: fm, Burst: b, Cfg: cfg})
+			}
+		}
+		for _, b := range []int{0, 1, 5, 6, 7, 23, 24, 25, 40, 100} {
+			for cfg := 0; cfg < cli.NCfg; cfg++ {
+				out = append(out, lockheldT{LockHeld: true, Fam: fm, Burst: b, Cfg: cfg, CloseGated: true})
 			}
 		}
 	}
